@@ -3,9 +3,10 @@ import common
 from common import Case
 
 TITLE = 'Protocol messages mean the same to both ends and framing always terminates'
-LEAN_TARGETS = ['BridgeVerif.Props.C19', 'BridgeVerif.Translated.NetHelpers', 'BridgeVerif.Translated.Messages']
-AUDIT_PROPS = ['C19', 'Translated.NetHelpers', 'Translated.Messages']
-REQUIRED = ['Translated.Messages.bid_message_round_trip', 'Translated.Messages.bid_message_variants', 'Translated.Messages.card_message_round_trip', 'Translated.Messages.board_header_round_trip', 'Translated.Messages.connection_line_read',
+LEAN_TARGETS = ['BridgeVerif.Props.C19', 'BridgeVerif.Translated.NetHelpers', 'BridgeVerif.Translated.Messages', 'BridgeVerif.Translated.ThreadsFraming']
+AUDIT_PROPS = ['C19', 'Translated.NetHelpers', 'Translated.Messages', 'Translated.ThreadsFraming']
+REQUIRED = ['Translated.ThreadsFraming.framing_send_translated', 'Translated.ThreadsFraming.framing_recv_translated', 'Translated.ThreadsFraming.framing_recv_bad_terminator', 'Translated.ThreadsFraming.framing_recv_eof', 'Translated.ThreadsFraming.framing_recv_blocked', 'Translated.ThreadsFraming.framing_stream_translated', 'Translated.ThreadsFraming.framing_recv_model',
+            'Translated.Messages.bid_message_round_trip', 'Translated.Messages.bid_message_variants', 'Translated.Messages.card_message_round_trip', 'Translated.Messages.board_header_round_trip', 'Translated.Messages.connection_line_read',
             'Translated.NetHelpers.nh_hand_to_str_translated',
             'hand_msg_round_trip', 'bid_msg_round_trip', 'card_msg_round_trip', 'board_header_round_trip',
             'team_names_round_trip', 'connect_round_trip', 'framing_round_trip', 'chunking_irrelevant',
